@@ -494,6 +494,48 @@ pub fn run(ctx: &Ctx) -> i32 {
             ctx.family(fam, schedules, &format!("shuttle check_dfs (exhaustive) over {} thread configurations against the shuttle-instrumented copy of the library: one PaletteMapper shared by 2 threads x 2 lookups (all 625 colour assignments over 4 palette colours and one absent colour) and by 3 threads x 1 lookup (125); every lookup compared with the same lookup on a mapper of its own; {} configurations hit the cap, {} skipped after 12 failing ones", configs, capped, skipped), capped == 0 && skipped == 0);
         }
     }
+    // ---- legacy palette chunks whose packets rewrite indices an earlier packet filled
+    if ctx.wants_family("mapper-legacy-packets") {
+        let cols: [[u8; 3]; 5] = [[10, 20, 30], [200, 100, 50], [1, 2, 3], [250, 250, 250], [8, 16, 24]];
+        // packet lists: (skip, colour indices)
+        let lists: Vec<Vec<(u8, Vec<usize>)>> = vec![
+            vec![(0, vec![0, 1, 2]), (0, vec![3, 4])],
+            vec![(0, vec![0, 1]), (0, vec![1, 0])],
+            vec![(2, vec![0, 1, 2]), (0, vec![3])],
+            vec![(0, vec![0, 1, 2, 3]), (1, vec![4]), (0, vec![0])],
+            vec![(0, vec![0]), (0, vec![1]), (0, vec![2])],
+            vec![(1, vec![0, 0, 1]), (0, vec![1, 2])],
+        ];
+        let cases: Vec<(usize, bool)> = (0..lists.len()).flat_map(|l| [false, true].into_iter().map(move |k11| (l, k11))).collect();
+        ctx.family("mapper-legacy-packets", cases.len() as u64, "palettes from legacy 0x0004 / 0x0011 chunks with 2-3 packets that overlap or rewrite each other: every one of 5 colours (6-bit exact for 0x0011) and an absent colour looked up; the expected index is derived from the loaded palette itself (an index below 256 whose entry has that RGB, or the failure index when there is none)", true);
+        for (li, k11) in cases {
+            let case = || format!("packets#{} chunk={}", li, if k11 { "0x0011" } else { "0x0004" });
+            if !ctx.wants("mapper-legacy-packets", &case) {
+                continue;
+            }
+            let scale = |c: [u8; 3]| if k11 { [c[0] / 4, c[1] / 4, c[2] / 4] } else { c };
+            let packets: Vec<(u8, Vec<[u8; 3]>)> = lists[li].iter().map(|(s, v)| (*s, v.iter().map(|i| scale(cols[*i])).collect())).collect();
+            let mut f = gen::file(1, 1, &Fmt::Rgba, &[1]);
+            f.frames[0].push(if k11 { Body::OldPalette11(old_palette(packets)) } else { Body::OldPalette04(old_palette(packets)) });
+            let Loaded::Ok(file) = load(&f.encode()) else { return 2 };
+            let Some(p) = file.palette() else { continue };
+            let mapper = PaletteMapper::new(p, MappingOptions { failure: 99, transparent: Some(98) });
+            let entries: Vec<(u32, [u8; 3])> = (0..300u32).filter_map(|i| p.color(i).map(|c| (i, [c.red(), c.green(), c.blue()]))).collect();
+            let mut queries: Vec<[u8; 3]> = entries.iter().map(|e| e.1).collect();
+            queries.extend(cols.iter().copied());
+            queries.push([77, 66, 55]);
+            for q in queries {
+                let ok: Vec<u8> = entries.iter().filter(|e| e.1 == q && e.0 < 256).map(|e| e.0 as u8).collect();
+                let got = mapper.lookup(q[0], q[1], q[2], 255);
+                ctx.eval(1);
+                ctx.outcome(hash64(&(li, k11, q, got)));
+                let fine = if ok.is_empty() { got == 99 } else { ok.contains(&got) };
+                if !fine {
+                    ctx.violation(Violation { family: "mapper-legacy-packets".into(), case: case(), sig: "lookup:legacy-packets".into(), detail: format!("lookup{:?} = {}, acceptable: {:?} (failure index 99 when empty); palette {:?}", q, got, ok, entries), bytes: Some(f.encode()), extra: json!({}) });
+                }
+            }
+        }
+    }
     ctx.note("built with asefile's `utils` feature on; the repository's own suite runs with it off (MANIFEST.hooks.baseline_off_cmd)");
     ctx.finish()
 }
